@@ -35,6 +35,7 @@ without `ref_pos`, the user-registered `time` attribute.  (`Writable` is `Writab
 objects": the hypothesis of the theorems before the generalisation; kept for the coverage counts.)
 -/
 import Midgard.Proofs.H5Attr
+import Midgard.Proofs.H5AttrText
 import Midgard.Proofs.H5Dataset
 import Midgard.Proofs.H5Refs
 import Midgard.Proofs.H5Meta
@@ -65,6 +66,20 @@ theorem strings_untouched (s : String) :
   · simp [encode, decode]
   · simp only [encode, Option.bind_some, decode]
     exact evalAst_toAst _
+
+/-- **the codec at the level of the stored text**: `"<tag> " + str(data)` / `"str " + data`, split again at the first blank
+(`attr.partition(" ")`), the empty-container spellings (`if not attr or attr == "<tag>()"`), a text whose first word is no
+tag returned as it is — `decodeText (encodeText m) = m` for every meta tree that can be saved, given that CPython's `str()`
+and `ast.parse` are inverse on literals (`Printer`: the trusted part, now a hypothesis) -/
+theorem text_decode_encode {render : Ast → List Char} {parse : List Char → Option Ast} (P : Printer render parse)
+    (m : Meta) (a : TAttr) (h : encodeText render m = some a) : decodeText parse a = some m :=
+  decodeText_encodeText P m a h
+
+/-- why strings carry the prefix whatever they spell: the bare texts `list`, `set`, `str` would be decoded as an empty list,
+an empty set, an empty string; with the prefix the words come back as they were -/
+example : dispatchText "list".toList = .empty "list" ∧ dispatchText "set".toList = .empty "set" ∧
+    dispatchText "str".toList = .str [] ∧ dispatchText "str list".toList = .str "list".toList ∧
+    dispatchText "nan inf".toList = .str "nan inf".toList := by decide
 
 /-! ### the store -/
 
@@ -607,3 +622,4 @@ end Midgard.Props.C10
 #print axioms Midgard.Props.C10.time_read_by_name
 #print axioms Midgard.Props.C10.read_write_time
 #print axioms Midgard.Props.C10.time_restored
+#print axioms Midgard.Props.C10.text_decode_encode
